@@ -640,6 +640,10 @@ class Connection(ExportImport):
                     self._creating.pop(new._p_oid, None)
                     del new._p_jar
                     del new._p_oid
+                    # (an explicitly added one is registered: abort() must not
+                    # meet it without its oid)
+                    self._registered_objects = [
+                        o for o in self._registered_objects if o is not new]
             raise
 
     def tpc_abort(self, transaction):
